@@ -19,9 +19,12 @@ RULE = ("/proc/meminfo drawn as a list of kernel-formatted lines: EXHAUSTIVE ove
         "(cached total; directed histories vm / MemTotal changes / vm / memory_percent over all ordered pairs of 4 totals); EXHAUSTIVE: /proc/zoneinfo "
         "present but open() failing with EACCES, EIO, EISDIR or read() failing with EIO x MemAvailable absent/0/value x all 8 subsets of the estimate's inputs; "
         "plus a malformed byte stream (dropped/blank/duplicated/non-numeric lines, signs, underscores, CRLF) "
-        "compared with the model only. Non-trivial = at least MemTotal and MemFree (or one swap source) present; distinct = "
+        "compared with the model only; LIVE: the running kernel's /proc/meminfo, /proc/zoneinfo, /proc/vmstat read once, parsed into the Spec record, printed back by the "
+        "Coq kernel printers and compared byte for byte (mismatch = harness error), then model = psutil = spec on that snapshot (also with MemAvailable removed / zeroed so "
+        "that the estimate runs over the real watermarks) and psutil over the real /proc (timing-free facts). Non-trivial = at least MemTotal and MemFree (or one swap source) present; distinct = "
         "distinct canonical case hash.")
-TRUSTED = ["correspondence harness props/C08.py + pv/ (fake /proc tree, patched cext.linux_sysinfo and _pslinux.PAGESIZE, captured warnings)",
+TRUSTED = ["kernel printers k_meminfo/k_zoneinfo/k_vmstat: validated byte for byte against the running kernel's files on every run (live cases); other kernel versions by transcription",
+           "correspondence harness props/C08.py + pv/ (fake /proc tree, patched cext.linux_sysinfo and _pslinux.PAGESIZE, captured warnings)",
            "kernel formats of /proc/meminfo, /proc/zoneinfo, /proc/vmstat and the MemAvailable fallback formula transcribed in coq/C08/Spec.v",
            "IEEE double arithmetic and round() of CPython: the fallback estimate's doubles are modelled by rnd53 (53-bit round-half-even on integers/half-integers), "
            "percent is computed exactly and compared exactly in tenths outside a 1e-9 neighbourhood of a rounding boundary"]
@@ -163,8 +166,8 @@ def _vm_case(rng, present, mag, amode, zmode, ps=4096, shuffle=False, cls=None, 
         val = str(v[n])
         if rng.random() < 0.03:
             val = "0" * rng.randint(1, 3) + val
-        if style == "kernel":
-            pad = max(1, 16 - len(n)) + max(0, 8 - len(val))
+        if style == "kernel":    # the layout validated against the running kernel by the live cases
+            pad = max(1, (19 - len(n)) + max(0, 5 - len(val)) if n.startswith("HugePages_") else _kernel_pad(n, val))
         elif style == "one":
             pad = 1
         else:
@@ -279,6 +282,153 @@ def _phymem_case(rng):
     return {"kind": "phymem", "cls": "phymem-" + "".join(e[0][0] for e in ev)[:3], "events": ev}
 
 
+# ------------------------------------------------------------------ live: the running kernel's files
+class LiveFormatError(RuntimeError):
+    """the running kernel prints something the kernel printers of coq/C08/Spec.v do not (harness error, never a verdict)"""
+
+
+def _ascii(b, what):
+    try:
+        return b.decode("ascii")
+    except UnicodeDecodeError:
+        raise LiveFormatError("C08 live: non-ASCII byte in %s" % what)
+
+
+def _lines(b, what):
+    if b and not b.endswith(b"\n"):
+        raise LiveFormatError("C08 live: %s does not end with a newline" % what)
+    return b.split(b"\n")[:-1]
+
+
+def _parse_meminfo(b):
+    """real /proc/meminfo -> entries of the Spec record (mline: name, pad, digits, rest | junk)"""
+    import re
+    out = []
+    for ln in _lines(b, "/proc/meminfo"):
+        t = _ascii(ln, "/proc/meminfo")
+        m = re.fullmatch(r"(\S+)( +)(\d+)((?:[ \t].*)?)", t)
+        out.append([m.group(1), len(m.group(2)) - 1, m.group(3), m.group(4)] if m else ["#junk", t])
+    return out
+
+
+def _parse_zoneinfo(b):
+    import re
+    out = []
+    for ln in _lines(b, "/proc/zoneinfo"):
+        t = _ascii(ln, "/proc/zoneinfo")
+        if t.strip().startswith("low"):
+            m = re.fullmatch(r"([ \t]*)low([ \t]+)(\d+)([ \t]*)", t)
+            if not m:
+                raise LiveFormatError("C08 live: /proc/zoneinfo line %r starts with 'low' but is not '<blanks>low<blanks><pages>' "
+                                      "(Spec.zline has no constructor for it)" % t)
+            out.append(["low", m.group(1), m.group(2), m.group(3), m.group(4)])
+        else:
+            out.append(["other", t])
+    return out
+
+
+def _parse_vmstat(b):
+    import re
+    out = []
+    for ln in _lines(b, "/proc/vmstat"):
+        t = _ascii(ln, "/proc/vmstat")
+        m = re.fullmatch(r"(\S+) (\d+)((?: .*)?)", t)
+        if m:
+            out.append([m.group(1), m.group(2), m.group(3)])
+        elif t.startswith("pswpin") or t.startswith("pswpout"):
+            raise LiveFormatError("C08 live: /proc/vmstat line %r is not 'name value'" % t)
+        else:
+            out.append(["#junk", t])
+    return out
+
+
+def _kernel_pad(name, val):
+    """show_val_kb(): the name is a literal padded to 16 columns, the value is right-aligned in 8"""
+    return max(0, 16 - len(name)) + max(0, 8 - len(val))
+
+
+def _live_checks(mem, zone, vm):
+    """facts about the running kernel's files that the generators and notes rely on (harness error when false)"""
+    names = [e[0] for e in mem if e[0] != "#junk"]
+    bad = []
+    if any(e[0] == "#junk" for e in mem):
+        bad.append("meminfo has lines that are not 'name number ...': %r" % [e[1] for e in mem if e[0] == "#junk"])
+    if len(set(names)) != len(names):
+        bad.append("meminfo repeats a name")
+    if names[:3] != ["MemTotal:", "MemFree:", "MemAvailable:"]:
+        bad.append("meminfo does not start with MemTotal, MemFree, MemAvailable: %r" % names[:3])
+    for n in ("Buffers:", "Cached:", "Active:", "Inactive:", "Active(file):", "Inactive(file):", "SwapTotal:", "SwapFree:", "Shmem:",
+              "Slab:", "SReclaimable:"):
+        if n not in names:
+            bad.append("meminfo of this kernel lacks %s" % n)
+    for n, pad, val, rest in [e for e in mem if e[0] != "#junk"]:
+        if n.startswith("HugePages_"):
+            # hugetlb_report_meminfo(): "HugePages_Total:   %5lu" / "HugePages_Free:    %5lu" ...: literal to column 19, then %5lu, no unit
+            if rest != "" or pad + 1 != (19 - len(n)) + max(0, 5 - len(val)):
+                bad.append("hugetlb count line %s is not '<name padded to 19>%%5lu'" % n)
+        else:
+            if rest != " kB":
+                bad.append("%s has unit suffix %r, not ' kB'" % (n, rest))
+            if pad + 1 != _kernel_pad(n, val):
+                bad.append("%s: %d blanks, the '%%-16s%%8lu' layout has %d" % (n, pad + 1, _kernel_pad(n, val)))
+    lows = [z for z in zone if z[0] == "low"]
+    zones = [z for z in zone if z[0] == "other" and z[1].startswith("Node ")]
+    if len(lows) != len(zones) or not lows:
+        bad.append("zoneinfo: %d 'low' lines for %d zones" % (len(lows), len(zones)))
+    for z in lows:
+        if (z[1], z[2], z[4]) != (" " * 8, " " * 6, ""):
+            bad.append("zoneinfo low line %r is not '        low      %%lu'-shaped" % (z,))
+    vnames = [e[0] for e in vm if e[0] != "#junk"]
+    if any(e[0] == "#junk" for e in vm) or any(e[2] != "" for e in vm if e[0] != "#junk"):
+        bad.append("vmstat has lines that are not exactly 'name value'")
+    if len(set(vnames)) != len(vnames):
+        bad.append("vmstat repeats a name")
+    if "pswpin" not in vnames or "pswpout" not in vnames or vnames.index("pswpout") != vnames.index("pswpin") + 1:
+        bad.append("vmstat: pswpin/pswpout missing or not adjacent")
+    if [n for n in vnames if (n.startswith("pswpin") or n.startswith("pswpout")) and n not in ("pswpin", "pswpout")]:
+        bad.append("vmstat has another counter whose name begins with pswpin/pswpout (wf_vline assumption)")
+    if bad:
+        raise LiveFormatError("C08 live: the running kernel (%s) contradicts the transcribed formats: %s" % (os.uname().release, "; ".join(bad)))
+
+
+def _live_cases():
+    """snapshot of the running kernel's /proc/meminfo, /proc/zoneinfo, /proc/vmstat (read ONCE), parsed into the Spec record;
+    Coq prints the record back (k_meminfo/k_zoneinfo/k_vmstat) and coq_struct compares the printed bytes with the real ones."""
+    if not os.path.exists("/proc/meminfo"):
+        return []
+    snap = {}
+    for f in ("meminfo", "zoneinfo", "vmstat"):
+        try:
+            with open("/proc/" + f, "rb") as fh:
+                snap[f] = fh.read()
+        except OSError:
+            snap[f] = None
+    mem = _parse_meminfo(snap["meminfo"])
+    zone = None if snap["zoneinfo"] is None else _parse_zoneinfo(snap["zoneinfo"])
+    vm = None if snap["vmstat"] is None else _parse_vmstat(snap["vmstat"])
+    if zone is not None and vm is not None:
+        _live_checks(mem, zone, vm)
+    ps = os.sysconf("SC_PAGE_SIZE")
+    hx = lambda b: None if b is None else b.hex()
+    without = lambda *names: [e for e in mem if e[0] not in names]
+    zeroed = [[e[0], e[1] + len(e[2]) - 1, "0", e[3]] if e[0] == "MemAvailable:" else e for e in mem]
+    cases = [
+        {"kind": "vm", "cls": "live-vm", "ps": ps, "mem": mem, "zone": zone, "live": {"meminfo": hx(snap["meminfo"]), "zoneinfo": hx(snap["zoneinfo"])}},
+        # the estimate over the REAL watermarks of every zone: MemAvailable dropped / reported as 0 (kernels < 3.14, issue 1915)
+        {"kind": "vm", "cls": "live-vm-estimate", "ps": ps, "mem": without("MemAvailable:"), "zone": zone, "live": {"zoneinfo": hx(snap["zoneinfo"])}},
+        {"kind": "vm", "cls": "live-vm-estimate", "ps": ps, "mem": zeroed, "zone": zone, "live": {"zoneinfo": hx(snap["zoneinfo"])}},
+        {"kind": "vm", "cls": "live-vm-estimate", "ps": ps, "mem": without("MemAvailable:"), "zone": None, "live": {}},
+        {"kind": "vm", "cls": "live-vm-estimate", "ps": ps, "mem": without("MemAvailable:", "SReclaimable:"), "zone": None, "live": {}},
+        {"kind": "vm", "cls": "live-vm-old", "ps": ps, "mem": without("MemAvailable:", "Shmem:", "Slab:", "Active(file):", "Inactive(file):", "SReclaimable:"),
+         "zone": None, "live": {}},
+        {"kind": "swap", "cls": "live-swap", "ps": ps, "mem": mem, "sysinfo": [0, 0, 1], "vmstat": vm, "live": {"meminfo": hx(snap["meminfo"]), "vmstat": hx(snap["vmstat"])}},
+        {"kind": "swap", "cls": "live-swap", "ps": ps, "mem": without("SwapTotal:"), "sysinfo": [12345, 2345, 4096], "vmstat": vm, "live": {"vmstat": hx(snap["vmstat"])}},
+        {"kind": "swap", "cls": "live-swap", "ps": ps, "mem": mem, "sysinfo": [0, 0, 1], "vmstat": None, "live": {"meminfo": hx(snap["meminfo"])}},
+        {"kind": "livereal", "cls": "live-real"},
+    ]
+    return cases
+
+
 RAW_MEM = [
     b"", b"\n", b"MemTotal: 100 kB\n", b"MemFree: 100 kB\n", b"MemTotal: 100 kB\nMemFree: 10 kB\n",
     b"MemTotal: 100 kB\nMemFree: 10 kB\n\n", b"MemTotal: 100 kB\nMemFree: 10 kB\nBuffers:\n",
@@ -311,6 +461,8 @@ def gen_cases(rng, tier):
     amodes = ["absent", "zero", "value", "gt", "eq"]
     zmodes = ["absent", "empty", "zones", "zones", "bigwm"]
     cases = []
+    if tier != "search":
+        cases += _live_cases()
     if tier != "search":
         # exhaustive: every subset of the 9 optional field groups
         for rep in range(reps):
@@ -389,14 +541,21 @@ def _rest(x):
     return x
 
 
+def _by(x):
+    """bytes literal: (bs "text") for plain printable ASCII (parsed much faster by coqc than a list of numbers), else the list"""
+    if isinstance(x, str) and x and all(32 <= ord(ch) <= 126 and ch != '"' for ch in x):
+        return '(bs "%s")' % x
+    return G.by(x)
+
+
 def _mem_term(mem):
     its = []
     for e in mem:
         if e[0] == "#junk":
-            its.append("(MJunk %s)" % G.by(e[1]))
+            its.append("(MJunk %s)" % _by(e[1]))
         else:
             n, p, v, r = e
-            its.append("(MLine (Build_mline %s %s %s %s))" % (G.by(n), G.nat(p), G.by(v), G.by(_rest(r))))
+            its.append("(MLine (Build_mline %s %s %s %s))" % (_by(n), G.nat(p), _by(v), _by(_rest(r))))
     return G.lst(its)
 
 
@@ -415,9 +574,9 @@ def _zone_term(zone):
     for z in zone:
         if z[0] == "low":
             w3 = z[4] if len(z) > 4 else ""
-            its.append("(ZLow %s %s %s %s)" % (G.by(_ws(z[1])), G.by(_ws(z[2], 1)), G.by(z[3]), G.by(w3)))
+            its.append("(ZLow %s %s %s %s)" % (_by(_ws(z[1])), _by(_ws(z[2], 1)), _by(z[3]), _by(w3)))
         else:
-            its.append("(ZOther %s)" % G.by(z[1]))
+            its.append("(ZOther %s)" % _by(z[1]))
     return "(Some %s)" % G.lst(its)
 
 
@@ -427,9 +586,9 @@ def _vm_term(vm):
     its = []
     for e in vm:
         if e[0] == "#junk":
-            its.append("(VJunk %s)" % G.by(e[1]))
+            its.append("(VJunk %s)" % _by(e[1]))
         else:
-            its.append("(VLine (Build_vline %s %s %s))" % (G.by(e[0]), G.by(e[1]), G.by(e[2] if len(e) > 2 else "")))
+            its.append("(VLine (Build_vline %s %s %s))" % (_by(e[0]), _by(e[1]), _by(e[2] if len(e) > 2 else "")))
     return "(Some %s)" % G.lst(its)
 
 
@@ -444,6 +603,16 @@ def _optb(hexs):
 def coq_term(case):
     k = case["kind"]
     L = G.bo(LENIENT)
+    if case.get("live") is not None and k in ("vm", "swap"):
+        def real(name):
+            h = case["live"].get(name)
+            if h is None:
+                return "None"
+            return "(Some %s)" % G.lst([_by(_ascii(ln, name)) if ln else "[]" for ln in _lines(bytes.fromhex(h), name)])
+        if k == "vm":
+            return "run_vm_live %s %s %s %s %s %s" % (L, G.z(case["ps"]), _mem_term(case["mem"]), _zone_term(case["zone"]), real("meminfo"), real("zoneinfo"))
+        return "run_swap_live %s %s %s %s %s %s %s" % (L, G.z(case["ps"]), _mem_term(case["mem"]), _si(case["sysinfo"]), _vm_term(case["vmstat"]),
+                                                       real("meminfo"), real("vmstat"))
     if k == "vm" and case.get("zfault"):
         z = {"EACCES": "(ZOpenErr EACCES)", "EIO": "(ZOpenErr EIO)", "EISDIR": "(ZOpenErr EISDIR)", "READ_EIO": "(ZReadErr [])"}[case["zfault"]]
         return "run_vm_z %s %s %s %s" % (L, G.z(case["ps"]), _mem_term(case["mem"]), z)
@@ -455,6 +624,8 @@ def coq_term(case):
         return "run_vm_raw %s %s %s %s" % (L, G.z(case["ps"]), G.by(bytes.fromhex(case["meminfo"])), _optb(case["zoneinfo"]))
     if k == "swapraw":
         return "run_swap_raw %s %s %s %s %s" % (L, G.z(case.get("ps", 4096)), G.by(bytes.fromhex(case["meminfo"])), _si(case["sysinfo"]), _optb(case["vmstat"]))
+    if k == "livereal":
+        return 'JC "None" []'
     if k == "phymem":
         evs = []
         for e in case["events"]:
@@ -475,8 +646,35 @@ def _canon_vm(o):
     return o
 
 
+def _live_struct(case, raw):
+    """Coq compared the bytes printed by Spec.k_meminfo / k_zoneinfo / k_vmstat for the parsed record with the running kernel's
+    bytes: raw[1] (zoneinfo / vmstat) and raw[-1] (meminfo) are True / False / None (= that file was altered or is absent)."""
+    second = "zoneinfo" if case["kind"] == "vm" else "vmstat"
+    for flag, name in ((raw[-1], "meminfo"), (raw[1], second)):
+        if flag is False:
+            raise LiveFormatError("C08 live: Spec.k_%s does not print the running kernel's /proc/%s byte for byte from the parsed record "
+                                  "(case class %s, kernel %s)" % (name, name, case["cls"], os.uname().release))
+        if (case["live"].get(name) is not None) != (flag is True):
+            raise LiveFormatError("C08 live: comparison flag for %s is %r" % (name, flag))
+    if raw[3] is None:
+        raise LiveFormatError("C08 live: the running kernel's files are outside the specification's domain "
+                              "(wf_kernel / has_total_free / float_exact false) for case class %s" % case["cls"])
+    # the second file as the implementation will read it: the real bytes when unaltered (just shown equal to the printed ones)
+    h = case["live"].get(second)
+    aux = None if h is None else {"b": h}
+    if h is None and (case["zone"] if case["kind"] == "vm" else case["vmstat"]) is not None:
+        raise LiveFormatError("C08 live: altered %s not supported" % second)
+    out = list(raw[:-1])
+    out[1] = aux
+    return out
+
+
 def coq_struct(case, raw):
     k = case["kind"]
+    if k == "livereal":
+        return {"model": None, "spec": None}
+    if case.get("live") is not None:
+        raw = _live_struct(case, raw)
     if k == "vm":
         return {"printed": [raw[0], raw[1]], "model": _canon_vm(raw[2]), "spec": None if raw[3] is None else _canon_vm(raw[3]),
                 "junk": raw[4], "float_exact": raw[5]}
@@ -557,6 +755,13 @@ def judge(case, coq, impl):
     from pv.core import Verdict
     if case["kind"] == "phymem":
         return _judge_phymem(case, coq, impl)
+    if case["kind"] == "livereal":
+        if isinstance(impl, dict) and impl.get("t") == "Skip":
+            return Verdict("skip", str(impl.get("a")))
+        bad = sorted(k for k, v in impl["facts"].items() if v is not True)
+        if bad:
+            return Verdict("violation", "psutil over the REAL /proc of the running kernel: %s fail(s); observed %r" % (bad, impl["seen"]))
+        return Verdict("ok")
     main, side = (impl, {}) if isinstance(impl, dict) else impl
     model, spec = coq["model"], coq["spec"]
     vm = case["kind"] in ("vm", "vmraw")
@@ -658,6 +863,80 @@ def _impl_phymem(case, coq, env):
         psutil._TOTAL_PHYMEM = None
 
 
+def _impl_livereal(case, coq, env):
+    """psutil over the real /proc of the running kernel; only facts that do not depend on timing"""
+    import warnings
+
+    import psutil
+    from psutil import _pslinux
+    from pv.canon import T
+
+    def kb(b, name):
+        for ln in b.split(b"\n"):
+            f = ln.split()
+            if f and f[0] == name:
+                return int(f[1]) * 1024
+        return None
+    old_path = psutil.PROCFS_PATH
+    psutil.PROCFS_PATH = "/proc"
+    try:
+        psutil._TOTAL_PHYMEM = None
+        m1 = open("/proc/meminfo", "rb").read()
+        with warnings.catch_warnings(record=True) as ws:
+            warnings.simplefilter("always")
+            vm = psutil.virtual_memory()
+            cached_total = psutil._TOTAL_PHYMEM
+            sw = psutil.swap_memory()
+        si = _pslinux.cext.linux_sysinfo()
+        m2 = open("/proc/meminfo", "rb").read()
+        v1 = open("/proc/vmstat", "rb").read() if os.path.exists("/proc/vmstat") else b""
+    finally:
+        psutil.PROCFS_PATH = old_path
+        psutil._TOTAL_PHYMEM = None
+    if kb(m1, b"MemTotal:") != kb(m2, b"MemTotal:") or kb(m1, b"SwapTotal:") != kb(m2, b"SwapTotal:"):
+        return T("Skip", "MemTotal/SwapTotal changed during the observation")
+    ps = _pslinux.PAGESIZE
+    lo = lambda n: min(kb(m1, n), kb(m2, n))
+    hi = lambda n: max(kb(m1, n), kb(m2, n))
+    u0 = vm.total - vm.free - vm.cached - vm.buffers
+    facts = {
+        "total = MemTotal kB x 1024": vm.total == kb(m1, b"MemTotal:"),
+        "used follows the formula on the reported fields": vm.used == (u0 if u0 >= 0 else vm.total - vm.free),
+        "0 <= available <= total": 0 <= vm.available <= vm.total,
+        "percent = half-even tenth of (total-available)/total": _pct_ok(Fraction(vm.percent), round_half_even((vm.total - vm.available) * 1000, vm.total),
+                                                                         vm.total - vm.available, vm.total),
+        "no RuntimeWarning on this kernel (every metric is provided)": len(ws) == 0,
+        "no metric is 0 for lack of a field": all(getattr(vm, n) >= 0 for n in FIELD_ORDER if n != "percent") and vm.total > 0,
+        "_TOTAL_PHYMEM = total": cached_total == vm.total,
+        "page size is the kernel's": ps == os.sysconf("SC_PAGE_SIZE"),
+        "swap total = SwapTotal kB x 1024": sw.total == kb(m1, b"SwapTotal:"),
+        "swap used = total - free": sw.used == sw.total - sw.free,
+        "swap percent": _pct_ok(Fraction(sw.percent), round_half_even(sw.used * 1000, sw.total) if sw.total else 0, sw.used, sw.total),
+        "sysinfo(2) swap figures = meminfo's (the fallback source agrees with the primary one)": si[4] * si[6] == kb(m1, b"SwapTotal:"),
+        "sin/sout are multiples of the page size": sw.sin % ps == 0 and sw.sout % ps == 0,
+        "svmem/sswap layout": list(vm._fields) == FIELD_ORDER and list(sw._fields) == SWAP_ORDER,
+    }
+    if b"pswpin" in v1:
+        facts["no swap warning (vmstat has the counters)"] = True   # warnings already required to be empty
+    for n, attr in ((b"Buffers:", "buffers"), (b"Shmem:", "shared"), (b"Slab:", "slab"), (b"Active:", "active"), (b"Inactive:", "inactive")):
+        # racy figures: the value reported must lie between the two snapshots taken around the call, widened by 64 MiB
+        slack = 64 * 1024 * 1024
+        facts["%s within the surrounding snapshots" % attr] = lo(n) - slack <= getattr(vm, attr) <= hi(n) + slack
+    seen = {"vm": [getattr(vm, n) for n in FIELD_ORDER], "swap": [getattr(sw, n) for n in SWAP_ORDER], "sysinfo": list(si),
+            "warnings": [str(w.message) for w in ws], "kernel": os.uname().release}
+    return {"facts": facts, "seen": seen}
+
+
+def round_half_even(n, d):
+    """nearest integer to n/d (d > 0), ties to even -- Model.round_he"""
+    q, r = divmod(n, d)
+    if 2 * r < d:
+        return q
+    if 2 * r > d:
+        return q + 1
+    return q if q % 2 == 0 else q + 1
+
+
 def impl_run(case, coq, env):
     import warnings
 
@@ -666,6 +945,8 @@ def impl_run(case, coq, env):
     k = case["kind"]
     if k == "phymem":
         return _impl_phymem(case, coq, env)
+    if k == "livereal":
+        return _impl_livereal(case, coq, env)
     root = os.path.join(env["work"], "proc")
     os.makedirs(root, exist_ok=True)
     if k in ("vm", "swap"):
